@@ -48,9 +48,9 @@ pub fn family_of(prop: &str) -> &'static str {
 }
 
 /// One seed of one property: returns a replay record for the first violation found.
-pub fn explore(prop: &str, seed: u64, thorough: bool, st: &mut Stats) -> Option<Replay> {
+pub fn explore(prop: &str, seed: u64, thorough: bool, st: &mut Stats) -> Vec<Replay> {
     match family_of(prop) {
-        "D" => dfamily::explore(prop, seed, thorough, st).map(|f| f.replay),
+        "D" => dfamily::explore(prop, seed, thorough, st),
         _ => panic!("no engine for property {}", prop),
     }
 }
@@ -100,18 +100,26 @@ pub fn cmd_worker(a: &[String]) {
     let mut st = Stats::default();
     let mut k = startk;
     let out = std::io::stdout();
+    let mut reported: BTreeMap<String, u32> = BTreeMap::new();
     while k < maxk && now_ms() < deadline {
         let seed = base.wrapping_add(offset).wrapping_add(k.wrapping_mul(stride));
         CUR_SEED.store(seed, std::sync::atomic::Ordering::SeqCst);
         CUR_K.store(k, std::sync::atomic::Ordering::SeqCst);
         let r = std::panic::catch_unwind(std::panic::AssertUnwindSafe(|| explore(&prop, seed, thorough, &mut st)));
         match r {
-            Ok(Some(rep)) => {
-                let mut o = out.lock();
-                let _ = writeln!(o, "FOUND {}", serde_json::to_string(&json!({"k": k, "replay": rep})).unwrap());
-                let _ = o.flush();
+            Ok(reps) => {
+                for rep in reps {
+                    // the parent keeps the first record per class; do not flood it
+                    let n = reported.entry(rep.class.clone()).or_insert(0);
+                    *n += 1;
+                    if *n > 2 {
+                        continue;
+                    }
+                    let mut o = out.lock();
+                    let _ = writeln!(o, "FOUND {}", serde_json::to_string(&json!({"k": k, "replay": rep})).unwrap());
+                    let _ = o.flush();
+                }
             }
-            Ok(None) => {}
             Err(p) => {
                 let mut o = out.lock();
                 let _ = writeln!(o, "HARNESS {}", json!({"seed": seed, "k": k, "msg": crate::util::payload_string(&p)}));
@@ -128,6 +136,8 @@ pub fn cmd_worker(a: &[String]) {
 // ------------------------------------------------------------------------------------------------
 // eval / replay
 
+static RDV_SCEN: std::sync::Mutex<Option<crate::plan::Scenario>> = std::sync::Mutex::new(None);
+
 pub fn cmd_eval(file: &str, human: bool) {
     crate::util::quiet_panics();
     let txt = std::fs::read_to_string(file).expect("read replay file");
@@ -139,8 +149,12 @@ pub fn cmd_eval(file: &str, human: bool) {
                 detsim::Outcome::Deadlock(_) => "deadlock",
                 _ => "step-limit",
             };
+            let mut msg = format!("{:?}", rep.outcome);
+            if let Some(sc) = RDV_SCEN.lock().unwrap().as_ref() {
+                msg = dfamily::describe_rendezvous_failure(sc, &msg);
+            }
             let eo = EvalOut {
-                violations: vec![Violation { prop: prop.clone(), class: class.into(), msg: format!("{:?}", rep.outcome) }],
+                violations: vec![Violation { prop: prop.clone(), class: class.into(), msg }],
                 digest: 0,
                 trace: rep.trace.clone(),
                 steps: rep.steps,
@@ -149,6 +163,13 @@ pub fn cmd_eval(file: &str, human: bool) {
             let _ = std::io::stdout().flush();
             std::process::exit(if human { 1 } else { 0 });
         }));
+    }
+    if r.family == "D" {
+        if let Ok(sc) = serde_json::from_value::<crate::plan::Scenario>(r.scenario.clone()) {
+            if sc.faults.iter().any(|f| f.kind == crate::plan::FaultKind::Rendezvous) {
+                *RDV_SCEN.lock().unwrap() = Some(sc);
+            }
+        }
     }
     let eo = eval(&r);
     if !human {
@@ -365,20 +386,6 @@ pub fn cmd_check(prop: &str, tier: &str) {
             println!("  class={} seed={} : {}", small.class, small.seed, small.msg);
         } else {
             harness_errors.push(format!("violation {} at seed {} did not reproduce from its replay file {}", small.class, small.seed, path));
-        }
-    }
-    for (k, n) in &stats.kf_hits {
-        // known findings observed as side observations of runs (not the property's own violations)
-        if prop == "C12" {
-            if let Some(what) = match_known(&kfs, "C12", "tl-in-batch-on-worker", k) {
-                let line = format!("KNOWN-FINDING: property=C12 {} ({} runs)", what, n);
-                if !kf_lines.contains(&line) {
-                    kf_lines.push(line);
-                }
-            } else {
-                violations += 1;
-                vio_lines.push(format!("VIOLATION property=C12 replay=none ({} seen in {} runs, not listed as known)", k, n));
-            }
         }
     }
     let wall = t0.elapsed().as_secs_f64();
